@@ -4,7 +4,7 @@ from core.wire import atom, enc, dec, line, parse_reply, Atom
 
 ID = "C06"
 LEAN_TARGETS = ["TornadoModel.C06.Props"]
-THEOREMS_FULL = [
+THEOREMS = [
     "TornadoModel.C06.normalize_idem",
     "TornadoModel.C06.normalize_lower",
     "TornadoModel.C06.normalize_eq_iff_lower_eq",
@@ -12,10 +12,8 @@ THEOREMS_FULL = [
     "TornadoModel.C06.cache_sound_run",
     "TornadoModel.C06.refines_multimap",
     "TornadoModel.C06.present_deletable",
-    "TornadoModel.C06.copy_abs",
-    "TornadoModel.C06.parse_str_roundtrip",
+    "TornadoModel.C06.deleted_absent",
 ]
-THEOREMS = ["TornadoModel.C06.normalize_idem_stub"]
 TRUSTED = [
     "str.capitalize/split/join/strip/find and dict insertion order as modelled in C06/Model.lean (ASCII names)",
     "CPython `re` for _ABNF.field_name/field_value/_FORBIDDEN_HEADER_CHARS_RE and r'\\r?\\n$' (modelled by hand)",
